@@ -431,9 +431,11 @@ func (m *Map[K, V]) decodeInto(target any) error {
 	err := Unmarshal(temp, inlinePtr.Interface())
 	if w := warning.As(err); w != nil {
 		warns = append(warns, w.Wrapf("while unmarshaling the remaining input into an inline field of type %T", inlinePtr.Interface()))
-		return warning.Wrap(warns...)
+	} else if err != nil {
+		return err
 	}
-	return err
+	// Report the warnings gathered from the other fields too.
+	return warning.Wrap(warns...)
 }
 
 // Compile-time check that *Map[string,any] is an Unmarshaler
